@@ -14,6 +14,9 @@
 // aged VM's metric with Metric.RemoveDatum - what Store.Gc does on expiry or
 // over the limit - before the snapshot, so that both VMs start from equal
 // metrics while only the aged VM has seen the removed label set.
+// A quarter of the programs also hold `h0++` on a histogram under its own tag:
+// the instruction panics inside the VM and is recovered as a runtime error that
+// ends its line, and the line after it must run as in a fresh VM.
 // Correspondence: the whole run (removals included), and a sample of the fresh
 // runs, against Lang/TimeReg.v (run_htrace_new) with the time library tabulated.
 package main
@@ -28,7 +31,7 @@ import (
 )
 
 var weights = tmrun.Weights{Strp: 30, Strpc: 8, Sett: 8, Settc: 6, Gts: 18, Inc: 18, Conv: 8, Stop: 6, TwoLayouts: 15,
-	SC: 22, TailElse: 35, TailUncond: 8, HeadUncond: 25, Dim: 40}
+	SC: 22, TailElse: 35, TailUncond: 8, HeadUncond: 25, Dim: 40, Panic: 25}
 
 // gcChance: percent of the lines before which a live label set is removed from outside the VM.
 const gcChance = 25
@@ -93,6 +96,14 @@ type result struct {
 func classify(hist [][]tmrun.Event, evs []tmrun.Event, setsDiffer bool) string {
 	matched := map[int]bool{}
 	strp := false
+	if len(hist) > 0 {
+		for _, e := range hist[len(hist)-1] {
+			if e.Panic {
+				// the line before held an instruction that panics inside the VM
+				return "panic-recovery-state-leak"
+			}
+		}
+	}
 	if setsDiffer {
 		// the label sets of a metric with keys came out differently: what the VM
 		// keeps about label sets it looked up, created or deleted on earlier lines
@@ -361,6 +372,9 @@ func main() {
 			if c.Prog.HasDim() {
 				out.Count("kind/" + c.Kind + "/dimensioned")
 			}
+			if c.Prog.HasPanic() {
+				out.Count("kind/" + c.Kind + "/panicking-instruction")
+			}
 		}
 		for _, v := range r.viol {
 			out.Violate(v.Class, v.What, v.Case)
@@ -447,6 +461,14 @@ func main() {
 		1, false, []string{"D a b", "X a b", "D a b", "D a b", "V a b", "X a b", "V a b", "D a b", "D b a", "X b a", "V a b", "D b a"},
 		afterLine(map[int][]tmrun.SlotName{8: {L("d1", "a", "b")}}), 2))
 
+	// an instruction that panics inside the VM (++ on a histogram) is recovered
+	// as a runtime error that ends ITS line; the next line runs in full
+	add(runOne(tmrun.Prog{Stmts: []tmrun.Stmt{
+		{Kind: "uncond", Acts: []tmrun.Action{{K: "inc", M: "c0"}}},
+		{Tag: "H", Arg: tmrun.ArgNone, Acts: []tmrun.Action{{K: "inc", M: "c1"}, {K: "hinc", M: "h0"}, {K: "inc", M: "c2"}}},
+		{Tag: "GET", Arg: tmrun.ArgInt, Acts: []tmrun.Action{{K: "conv", M: "n0"}, {K: "gts", M: "g0"}, {K: "inc", M: "c2"}}}}},
+		0, false, []string{"GET 100", "H", "GET 100", "H", "H", "GET 7", "Z", "H", "Z", "GET 5"}, noGc, 2))
+
 	nprog := 190
 	if a.Thorough() {
 		nprog = 3000
@@ -482,7 +504,7 @@ func main() {
 		add(r)
 	}
 	out.Extra["programs_rejected_by_compiler"] = compileErrs
-	out.Flush("a case is a generated program (strptime/settime/timestamp()/stop/failing int(); 40% also with one or two metrics with two keys: x[$1][$2]++, = int($3), = timestamp(), del, del after) run on the real VM over a history of 3-12 lines drawn with repetition from a pool of parsing, non-parsing and cross-layout payloads and of label tuples that coincide under naive joining, with live label sets removed from outside the VM before a quarter of the lines; or one line on a fresh VM preset to the metrics reached; non-trivial when a line with events follows a line that parsed the same value, failed, stopped or raised a runtime error, or names a label set that an earlier line named or that was removed from outside", false)
+	out.Flush("a case is a generated program (strptime/settime/timestamp()/stop/failing int(); 40% also with one or two metrics with two keys: x[$1][$2]++, = int($3), = timestamp(), del, del after; 25% also with `/^H$/ { h0++ }` on a histogram, an instruction that panics in the VM and is recovered) run on the real VM over a history of 3-12 lines drawn with repetition from a pool of parsing, non-parsing and cross-layout payloads and of label tuples that coincide under naive joining, with live label sets removed from outside the VM before a quarter of the lines; or one line on a fresh VM preset to the metrics reached; non-trivial when a line with events follows a line that parsed the same value, failed, stopped or raised a runtime error, or names a label set that an earlier line named or that was removed from outside", false)
 }
 
 func replay(path string) {
